@@ -647,13 +647,239 @@ def apply_top(r, ops):
 
 
 # ----------------------------------------------------------------------------------
+# user-defined functions, compositions, physical gradients (spec/GeoFuncComp.tla)
+
+def poly_funcs(poly, variant=0):
+    """python callables (xyz order, numpy broadcasting) for a polynomial map given by monomials"""
+    comps = poly['comps']
+    D = len(poly['sup'])
+
+    def mono(m, X, ds=None):
+        k = fr(m['k'])
+        out = k
+        for b in range(D):
+            e = m['e'][b]
+            d = 0 if ds is None else ds[b]
+            if e < d:
+                return 0.0
+            for t in range(d):
+                out = out * (e - t)
+            if e - d > 0:
+                out = out * X[b] ** (e - d)
+        return out
+
+    def comp(c, X, ds=None):
+        out = 0.0
+        for m in comps[c]:
+            out = out + mono(m, X, ds)
+        return out
+
+    def f(*X):
+        vals = tuple(comp(c, X) for c in range(len(comps)))
+        if not poly['vec']:
+            return vals[0]
+        if variant % 2 == 0:
+            return vals                              # tuple of (partially broadcast) components
+        return np.stack(np.broadcast_arrays(*vals), axis=-1)
+
+    def jac(*X):
+        rows = []
+        for c in range(len(comps)):
+            cols = [comp(c, X, [1 if b == bb else 0 for b in range(D)]) for bb in range(D)]
+            rows.append(np.stack(np.broadcast_arrays(*(cols + list(X)))[:D], axis=-1))
+        if not poly['vec']:
+            return rows[0]
+        return np.stack(np.broadcast_arrays(*rows), axis=-2)
+    return f, jac
+
+
+def sheet_vj(rec, osh, D):
+    grid = [np.array([fr(x) for x in ax]) for ax in rec['grid']]
+    gs = tuple(len(g) for g in grid)
+    V = farr(rec['val']).T.reshape(gs + osh)
+    J = np.transpose(farr(rec['jac']), (2, 1, 0)).reshape(gs + osh + (D,))
+    return Sheet(grid, osh, V, J, None)
+
+
+def check_boundary_function(bt, Bf, fsh, D, esup=None):
+    """a _BoundaryFunction (or composed face) against the face sheet fsh; D = sdim of the parent"""
+    if D == 1:
+        X = bt.guarded('__call__', lambda: Bf())
+        if X is not None:
+            bt.cmp('__call__', np.asarray(X, dtype=float), fsh.V, fsh.scale, 0)
+        return
+    X = bt.guarded('grid_eval', lambda: Bf.grid_eval(fsh.grid))
+    if X is not None:
+        bt.cmp('grid_eval', X, fsh.V, fsh.scale, D - 1)
+    X = bt.guarded('grid_jacobian', lambda: Bf.grid_jacobian(fsh.grid))
+    if X is not None:
+        bt.cmp('grid_jacobian', X, fsh.J, fsh.scale, D - 1)
+    mi = tuple(n // 2 for n in fsh.gs)
+    pt = [float(fsh.grid[D - 2 - c][mi[D - 2 - c]]) for c in range(D - 1)]
+    X = bt.guarded('__call__', lambda: Bf(*pt))
+    if X is not None:
+        bt.cmp('__call__', np.asarray(X, dtype=float), fsh.V[mi], fsh.scale, D - 1)
+
+
+def run_user(ctx, agg, rec):
+    from pyiga import geometry, utils
+    poly = rec['poly']
+    D = len(poly['sup'])
+    nc = len(poly['comps'])
+    osh = (nc,) if poly['vec'] else ()
+    sh = sheet_vj(rec, osh, D)
+    variant = rec['id']
+    f, jac = poly_funcs(poly, variant)
+    support = [(float(lo), float(hi)) for lo, hi in poly['sup']]
+    info = dict(fam='user', case=rec['id'], sdim=D, comps=poly['comps'])
+    bt = Battery(ctx, agg, 'UserFunction %s' % shape_class(osh), info)
+    ctx.case(('user', rec['id']), nontrivial=True, sample={'user_function': poly['comps'], 'support': poly['sup']} if rec['id'] == 3 else None)
+    kw = {} if variant % 2 == 0 else {'dim': (nc if poly['vec'] else 1)}
+    U = bt.guarded('construct', lambda: geometry.UserFunction(f, support, jac=jac, **kw))
+    if U is None:
+        return
+
+    def attrs():
+        return (U.sdim, U.dim, tuple(U.output_shape()) if 'dim' not in kw else None, tuple(tuple(map(float, s)) for s in U.support))
+    a = bt.guarded('attributes', attrs)
+    if a is not None:
+        exp = (D, nc if poly['vec'] else 1, osh if 'dim' not in kw else None, tuple(support))
+        if a != exp:
+            bt.viol('attributes', 'wrong sdim/dim/output_shape/support', got=repr(a), expected=repr(exp))
+    grid = sh.grid
+    for route, fn in (('grid_eval', lambda: U.grid_eval(grid)), ('utils.grid_eval', lambda: utils.grid_eval(U, grid)),
+                      ('utils.grid_eval(callable)', lambda: utils.grid_eval(f, grid))):
+        X = bt.guarded(route, fn)
+        if X is not None:
+            bt.cmp(route, X, sh.V, sh.scale, D)
+    X = bt.guarded('grid_jacobian', lambda: U.grid_jacobian(grid))
+    if X is not None:
+        bt.cmp('grid_jacobian', X, sh.J, sh.scale, D)
+    idx = list(itertools.product(*[range(n) for n in sh.gs]))[::3]
+    X = bt.guarded('__call__', lambda: np.array([np.asarray(U(*[float(grid[D - 1 - c][mi[D - 1 - c]]) for c in range(D)]), dtype=float) for mi in idx]))
+    if X is not None:
+        bt.cmp('__call__', X, np.array([sh.V[mi] for mi in idx]), sh.scale, D)
+    M = np.meshgrid(*grid, indexing='ij')
+    P = [M[D - 1 - c].ravel() for c in range(D)]
+    X = bt.guarded('pointwise_eval', lambda: np.asarray(U.pointwise_eval(P) if poly['vec'] is False or variant % 2 else np.stack(np.broadcast_arrays(*U.pointwise_eval(P)), -1)))
+    if X is not None:
+        bt.cmp('pointwise_eval', X, sh.V.reshape((-1,) + osh), sh.scale, D)
+    for ax in range(D):
+        for side in (0, 1):
+            fsh = sh.face(ax, 0 if side == 0 else -1)
+            for spec in ((ax, side), BDNAME[(D, ax, side)]):
+                sub = Battery(ctx, agg, 'UserFunction %s boundary (_BoundaryFunction)' % shape_class(osh), dict(info, bdspec=spec), failed=bt.failed)
+                Bf = sub.guarded('boundary(%s)' % ('name' if isinstance(spec, str) else 'pair'), lambda: U.boundary(spec))
+                if Bf is None:
+                    continue
+                check_boundary_function(sub, Bf, fsh, D)
+                if D >= 2:
+                    X = sub.guarded('grid_jacobian(keep_normal)', lambda: Bf.grid_jacobian(fsh.grid, keep_normal=True))
+                    if X is not None:
+                        sub.cmp('grid_jacobian(keep_normal)', X, fsh.Jfull, sh.scale, D - 1)
+
+
+def run_comp(ctx, agg, rec):
+    from pyiga import geometry
+    g2 = rec['geo2']
+    osh = tuple(rec['osh'])
+    D = len(rec['grid'])
+    sh = sheet_vj(rec, osh, D)
+    if rec['g1'] == 'obj':
+        o1 = rec['geo1']
+        d1 = '%s %s' % ({'bsp': 'BSplineFunc', 'nurbs': 'NurbsFunc'}[o1['kind']], shape_class(o1['osh']))
+        mk1 = lambda: build_obj(o1, rec['id'])
+    else:
+        d1 = 'UserFunction'
+        f, jac = poly_funcs(rec['geo1'], 1)
+        mk1 = lambda: geometry.UserFunction(f, [(float(lo), float(hi)) for lo, hi in rec['geo1']['sup']], jac=jac)
+    d2 = {'bsp': 'BSplineFunc', 'nurbs': 'NurbsFunc'}[g2['kind']]
+    info = dict(fam='compose', case=rec['id'], sdim=D, inner=d1, outer='%s %s sdim=%d' % (d2, shape_class(g2['osh']), len(g2['kvs'])))
+    bt = Battery(ctx, agg, 'ComposedFunction(%s o %s)' % (shape_class(g2['osh']), shape_class(rec['geo1']['osh']) if rec['g1'] == 'obj' else 'UserFunction'), info)
+    ctx.case(('compose', rec['id']), nontrivial=True, sample=dict(info) if rec['id'] == 2 else None)
+    try:
+        G1, G2 = mk1(), build_obj(g2, rec['id'])
+    except Exception as ex:
+        bt.viol('construct operands', 'exception %s' % type(ex).__name__, error=repr(ex)[:300])
+        return
+    before = (fingerprint(G1), fingerprint(G2))
+    C = bt.guarded('construct', lambda: geometry.ComposedFunction(G2, G1))
+    if C is None:
+        return
+    a = bt.guarded('attributes', lambda: (C.sdim, C.dim, np.array(C.support, dtype=float).tolist()))
+    if a is not None:
+        exp = (D, 1 if not osh else osh[0], np.array(G1.support, dtype=float).tolist())
+        if a != exp:
+            bt.viol('attributes', 'wrong sdim/dim/support', got=repr(a), expected=repr(exp))
+    grid = sh.grid
+    X = bt.guarded('grid_eval', lambda: C.grid_eval(grid))
+    if X is not None:
+        bt.cmp('grid_eval', X, sh.V, sh.scale, D)
+    X = bt.guarded('grid_jacobian', lambda: C.grid_jacobian(grid))
+    if X is not None:
+        bt.cmp('grid_jacobian', X, sh.J, sh.scale, D)
+    idx = list(itertools.product(*[range(n) for n in sh.gs]))[::2]
+    X = bt.guarded('__call__', lambda: np.array([np.asarray(C(*[float(grid[D - 1 - c][mi[D - 1 - c]]) for c in range(D)]), dtype=float) for mi in idx]))
+    if X is not None:
+        bt.cmp('__call__', X, np.array([sh.V[mi] for mi in idx]), sh.scale, D)
+    if D >= 2:
+        for ax in range(D):
+            for side in (0, 1):
+                fsh = sh.face(ax, 0 if side == 0 else -1)
+                spec = (ax, side) if (ax + side) % 2 else BDNAME[(D, ax, side)]
+                sub = Battery(ctx, agg, bt.tag + ' boundary', dict(info, bdspec=spec), failed=bt.failed)
+                Bf = sub.guarded('boundary()', lambda: C.boundary(spec))
+                if Bf is not None:
+                    check_boundary_function(sub, Bf, fsh, D)
+    if (fingerprint(G1), fingerprint(G2)) != before:
+        bt.viol('immutability', 'composition or its evaluation alters an operand')
+
+
+def run_pg(ctx, agg, rec):
+    from pyiga import utils
+    D = len(rec['grid'])
+    grid = [np.array([fr(x) for x in ax]) for ax in rec['grid']]
+    gs = tuple(len(g) for g in grid)
+    E = farr(rec['val']).T.reshape(gs + (D,))
+    sc = 4.0 * max(1.0, float(np.abs(E).max()))
+    kind = {'bsp': 'BSplineFunc', 'nurbs': 'NurbsFunc'}[rec['geo']['kind']]
+    info = dict(fam='physgrad', case=rec['id'], sdim=D, geo=kind)
+    bt = Battery(ctx, agg, 'PhysicalGradientFunc', info)
+    ctx.case(('physgrad', rec['id']), nontrivial=True, sample=dict(info) if rec['id'] == 2 else None)
+    try:
+        u, geo = build_obj(rec['u'], 0), build_obj(rec['geo'], rec['id'])
+    except Exception as ex:
+        bt.viol('construct operands', 'exception %s' % type(ex).__name__, error=repr(ex)[:300])
+        return
+    before = (fingerprint(u), fingerprint(geo))
+    pg = bt.guarded('construct', lambda: u.transformed_jacobian(geo))
+    if pg is None:
+        return
+    a = bt.guarded('attributes', lambda: (pg.sdim, pg.dim, tuple(pg.output_shape())))
+    if a is not None and a != (D, D, (D,)):
+        bt.viol('attributes', 'wrong sdim/dim/output_shape', got=repr(a), expected=repr((D, D, (D,))))
+    X = bt.guarded('grid_eval', lambda: pg.grid_eval(grid))
+    if X is not None:
+        bt.cmp('grid_eval', X, E, sc, D)
+    X = bt.guarded('utils.grid_eval', lambda: utils.grid_eval(pg, grid))
+    if X is not None:
+        bt.cmp('utils.grid_eval', X, E, sc, D)
+    mi = tuple(n // 2 for n in gs)
+    X = bt.guarded('__call__', lambda: np.asarray(pg(*[float(grid[D - 1 - c][mi[D - 1 - c]]) for c in range(D)]), dtype=float))
+    if X is not None:
+        bt.cmp('__call__', X, E[mi], sc, D)
+    if (fingerprint(u), fingerprint(geo)) != before:
+        bt.viol('immutability', 'physical gradient alters an operand')
+
+
+# ----------------------------------------------------------------------------------
 # the state machine "no operation alters an existing object" (spec/GeoFuncOps.tla)
 
 def ops_cfgs(ctx):
     """(universe, MaxSteps, MaxLive, simulate)"""
     if ctx.thorough:
-        return [(1, 2, 6, None), (2, 2, 6, None), (3, 2, 6, None), (1, 4, 8, 300), (2, 4, 8, 300), (3, 4, 8, 300)]
-    return [(1, 2, 6, None), (2, 1, 6, None), (3, 1, 6, None), (2, 3, 7, 40)]
+        return [(1, 2, 6, None), (2, 2, 6, None), (3, 2, 6, None), (1, 4, 8, 60), (2, 4, 8, 60), (3, 4, 8, 60)]
+    return [(1, 2, 6, None), (2, 1, 6, None), (3, 1, 6, None), (2, 3, 7, 5), (3, 3, 7, 5)]
 
 
 def apply_step(st, live):
@@ -784,10 +1010,18 @@ def run(ctx):
         kw = dict(simulate=sim, depth=maxsteps + 1, seed=int(ctx.seed) + 7) if sim else {}
         return name, ctx.tlc('GeoFuncOps', cfg, workers=1 if sim else 2, timeout=7200, **kw)
 
+    def run_comp_job(part):
+        nparts = 2
+        cfg = write_cfg(ctx.scratch / ('comp_%d.cfg' % part),
+                        dict(Thorough=ctx.thorough, NParts=nparts, Part=part, Seed=int(ctx.seed) % 1000), invariants=['CaseOK'])
+        return ctx.tlc('GeoFuncComp', cfg, workers=2, timeout=7200)
+
     with ThreadPoolExecutor(6) as ex:
+        fut_comp = [ex.submit(run_comp_job, p) for p in range(2)]
         fut_ops = [ex.submit(run_ops_job, it) for it in ops_cfgs(ctx)]
         results = list(ex.map(run_job, jobs))
         ops_results = [f.result() for f in fut_ops]
+        comp_results = [f.result() for f in fut_comp]
     n = 0
     for fam, res in results:
         for rec in sorted(res.recs('CASE'), key=lambda r: r['id']):
@@ -795,6 +1029,14 @@ def run(ctx):
             n += 1
     if n == 0:
         raise MachineryError('GeoFuncCases emitted nothing')
+    m = 0
+    for res in comp_results:
+        for tag, fn in (('USER', run_user), ('COMP', run_comp), ('PG', run_pg)):
+            for rec in sorted(res.recs(tag), key=lambda r: r['id']):
+                fn(ctx, agg, rec)
+                m += 1
+    if m == 0:
+        raise MachineryError('GeoFuncComp emitted nothing')
     ctx.notes['operation_histories_replayed'] = sum(run_ops(ctx, agg, res, name) for name, res in ops_results)
     agg.flush()
     ctx.exhaustive = True
